@@ -168,7 +168,7 @@ PROPS["C01"] = dict(
     drive=dict(quick=dict(n=600, size=4), thorough=dict(n=12000, size=10)),
     nontrivial=lambda e: e["out"].get("k") == "ok" and (_map_ntoks(e) >= 2 or e["args"]["p1"].get("kind") == "index"),
     corrupt=_corrupt_map,
-    rule="cases: every ordered token list of MC_Encode (<= MaxToks tokens over Lines x Cols with 5 payload kinds, duplicates and shared positions), each built via new/builder/doc; seeded random models (<= ~50..120 tokens, duplicate/empty/unicode strings, roots, contents, ignore lists, debug ids) and random Hermes / nested index documents; distinct = distinct (how, model); non-trivial = >= 2 tokens or an index map; every model also through a setters route (set_source_root / set_source / set_source_contents / set_file / add_to_ignore_list after construction); column and original-position deltas from every VLQ digit-count class; generated source / root names of mixed UTF-8 width; names spelled like sources; sections sharing an offset; round 8: remove_names() in the setters route, a builder fed through add / add_raw / add_token in scrambled order, index maps without sections, Hermes documents with unparsable function maps",
+    rule="cases: every ordered token list of MC_Encode (<= MaxToks tokens over Lines x Cols with 5 payload kinds, duplicates and shared positions), each built via new/builder/doc; seeded random models (<= ~50..120 tokens, duplicate/empty/unicode strings, roots, contents, ignore lists, debug ids) and random Hermes / nested index documents; distinct = distinct (how, model); non-trivial = >= 2 tokens or an index map; every model also through a setters route (set_source_root / set_source / set_source_contents / set_file / add_to_ignore_list after construction); column and original-position deltas from every VLQ digit-count class; generated source / root names of mixed UTF-8 width; names spelled like sources; sections sharing an offset; round 8: remove_names() in the setters route, a builder fed through add / add_raw / add_token in scrambled order, index maps without sections, Hermes documents with unparsable function maps; round 9: the written form re-read through readers that deliver uneven pieces, single bytes and 8191-byte pieces (reads ending inside multi-byte characters)",
     assumptions=COMMON_ASSUMPTIONS,
 )
 
@@ -185,7 +185,7 @@ PROPS["C03"] = dict(
     drive=dict(quick=dict(n=500, size=4), thorough=dict(n=10000, size=10)),
     nontrivial=lambda e: e["out"].get("k") == "ok" and (_map_ntoks(e) >= 2 or e["args"].get("p1", {}).get("kind") == "index"),
     corrupt=_corrupt_map,
-    rule="cases: as C01, plus seeded maps with FULL-RANGE 32-bit positions (columns/lines at 0, 2^31+-1, 2^32-1, deltas up to +-(2^32-1)) whose mappings text is decoded by the specification with exact bit-list arithmetic (Mappings!DecodeV); per realised map the direct serialisation plus the serialisations of rewrite(default), adjust_mappings(self), flatten (index maps) and the to_data_url payload; distinct = distinct (how, via, map projection); non-trivial = >= 2 tokens or an index map; every map also written into a short-write sink (1/7/64/4096 bytes per call, interrupted calls); the crate's placeholder strings in the pools; round 8: remove_names() in the setters route, builder_mixed route",
+    rule="cases: as C01, plus seeded maps with FULL-RANGE 32-bit positions (columns/lines at 0, 2^31+-1, 2^32-1, deltas up to +-(2^32-1)) whose mappings text is decoded by the specification with exact bit-list arithmetic (Mappings!DecodeV); per realised map the direct serialisation plus the serialisations of rewrite(default), adjust_mappings(self), flatten (index maps) and the to_data_url payload; distinct = distinct (how, via, map projection); non-trivial = >= 2 tokens or an index map; every map also written into a short-write sink (1/7/64/4096 bytes per call, interrupted calls); the crate's placeholder strings in the pools; round 8: remove_names() in the setters route, builder_mixed route; round 9: sinks that FAIL at byte 0 / the middle / the last byte (to_writer must report it)",
     assumptions=COMMON_ASSUMPTIONS,
 )
 
@@ -227,7 +227,7 @@ PROPS["C07"] = dict(
     drive=dict(quick=dict(n=500, size=4), thorough=dict(n=10000, size=8)),
     nontrivial=lambda e: e["out"].get("k") == "ok" and ((e["op"] == "lookups" and any(t[6] for t in e["args"]["toks"])) or (e["op"] == "roundtrip" and any(t[6] for t in e["args"]["p1"].get("toks", []))) ),
     corrupt=_corrupt_map,
-    rule="cases: every flag assignment of MC_Encode/MC_Lookup with WithRange (all subsets of flags on lists of <= MaxToks tokens over the grid, empty leading lines) x all grid queries; seeded: single lines of up to 70 tokens with random flag density and neighbours on other lines, random models with range flags; distinct = distinct (op, args); non-trivial = the map has at least one range token",
+    rule="cases: every flag assignment of MC_Encode/MC_Lookup with WithRange (all subsets of flags on lists of <= MaxToks tokens over the grid, empty leading lines) x all grid queries; seeded: single lines of up to 70 tokens with random flag density and neighbours on other lines, random models with range flags; distinct = distinct (op, args); non-trivial = the map has at least one range token; round 9: one line of 2^16 - 3 .. 2^16 + 4000 (now and then 2^17) segments with flags on both sides of segment 65536, judged by the flag-preservation relation (bigline)",
     assumptions=COMMON_ASSUMPTIONS,
 )
 
@@ -314,7 +314,7 @@ PROPS["C12"] = dict(
     drive=dict(quick=dict(n=1500, size=3), thorough=dict(n=40000, size=6)),
     nontrivial=lambda e: (e["op"] == "reader" and len(e["args"]["input"]) >= 2) or (e["op"] == "decode" and len(e["args"]["bytes"]) > 10),
     corrupt=_corrupt_c12,
-    rule="cases: every input of <= MaxLen (5 quick / 6 thorough) bytes over {')', \"'\", CR, LF, 'x'} x every chunking (TLC InnerRead with any k), each also in front of a real document; seeded: every junk start byte, garbage incl. non-ASCII, \\n / \\r\\n / bare \\r / \\r x \\n endings, header only, valid / truncated / corrupted regular, Hermes and index documents, chunk schedules with 1-byte reads and boundaries at/inside the header end; distinct = distinct (op, args); non-trivial = >= 2 input bytes (reader) or a document (decode); JSON front-end members (non-UTF-8 / lone-surrogate / out-of-range values of unknown keys, deep nesting, repeated known keys)",
+    rule="cases: every input of <= MaxLen (5 quick / 6 thorough) bytes over {')', \"'\", CR, LF, 'x'} x every chunking (TLC InnerRead with any k), each also in front of a real document; seeded: every junk start byte, garbage incl. non-ASCII, \\n / \\r\\n / bare \\r / \\r x \\n endings, header only, valid / truncated / corrupted regular, Hermes and index documents, chunk schedules with 1-byte reads and boundaries at/inside the header end; distinct = distinct (op, args); non-trivial = >= 2 input bytes (reader) or a document (decode); JSON front-end members (non-UTF-8 / lone-surrogate / out-of-range values of unknown keys, deep nesting, repeated known keys); long junk lines whose terminator sits at offset 8190..8193 (mod 8192), read in full buffers or with a read ending at / before the '\\r'",
     assumptions=COMMON_ASSUMPTIONS + ["hook H2 (cfg sourcemap_verif) re-exports StripHeaderReader/strip_junk_header; add-only"],
 )
 HOOK_COMMITS.append("95aad40")
@@ -372,7 +372,7 @@ PROPS["C16"] = dict(
     nontrivial=lambda e: e["op"] != "end" and len(e["args"]["text"]) >= 1,
     corrupt=_corrupt_c15,
     corruptible=lambda e: e["op"] != "end",
-    rule="cases: every interleaving (TLC, no VIEW: the schedule is part of the state) of 2 threads x 1 call (quick) / 2 threads x <=2 calls and 3 threads x 1 call (thorough) over get_line(0..2) and line_count on texts with 0..3 lines, replayed as thread schedules on real threads; seeded: 2..4 threads x 1..3 calls (get_line, line_count, lines) under random schedules and free-running; distinct = distinct (call, text, thread); non-trivial = non-empty text; threads that go on with their own clone of the view (MC_SVConc clone configs and driver)",
+    rule="cases: every interleaving (TLC, no VIEW: the schedule is part of the state) of 2 threads x 1 call (quick) / 2 threads x <=2 calls and 3 threads x 1 call (thorough) over get_line(0..2) and line_count on texts with 0..3 lines, replayed as thread schedules on real threads; seeded: 2..4 threads x 1..3 calls (get_line, line_count, lines) under random schedules and free-running; distinct = distinct (call, text, thread); non-trivial = non-empty text; threads that go on with their own clone of the view (MC_SVConc clone configs and driver); hook H1's fourth yield point (inside the indexing loop, between the progress update and the push) lets schedules park a thread in the half-updated state",
     assumptions=COMMON_ASSUMPTIONS + ["hook H1 (cfg sourcemap_verif): three yield points in SourceView::get_line calling a thread-local callback; add-only, no-op without a callback"],
 )
 HOOK_COMMITS.append("59fd72d")
@@ -437,7 +437,7 @@ PROPS["C10"] = dict(
     drive=dict(quick=dict(n=1500, size=3), thorough=dict(n=20000, size=5)),
     nontrivial=lambda e: len(e["args"]["orig"]) >= 1 and len(e["args"]["adj"]) >= 1,
     corrupt=_corrupt_c10,
-    rule="cases: every (orig, adj) of MC_Adjust: <= MaxO original and <= MaxA adjustment tokens over Lines x Cols, adjustment displacements {(0,0),(0,2),(1,0),(1,1)}, without and with duplicated positions; seeded random pairs on grids up to 50x50 with up to ~56 tokens a side, a third of them with duplicated positions, tokens handed to the crate in shuffled order; distinct = distinct (orig, adj); non-trivial = both maps non-empty; adjustment tokens without a source / with another source / with a name; debug ids and roots on either map (equal, different, absent)",
+    rule="cases: every (orig, adj) of MC_Adjust: <= MaxO original and <= MaxA adjustment tokens over Lines x Cols, adjustment displacements {(0,0),(0,2),(1,0),(1,1)}, without and with duplicated positions; seeded random pairs on grids up to 50x50 with up to ~56 tokens a side, a third of them with duplicated positions, tokens handed to the crate in shuffled order; distinct = distinct (orig, adj); non-trivial = both maps non-empty; adjustment tokens without a source / with another source / with a name; debug ids and roots on either map (equal, different, absent); range flags on adjustment tokens",
     assumptions=COMMON_ASSUMPTIONS,
 )
 
@@ -610,7 +610,7 @@ PROPS["C05"] = dict(
     corrupt=_corrupt_c05,
     corruptible=lambda e: True,
     harness_timeout=7000,
-    rule="cases: every (kind, fault set) of MC_Lifecycle (3 kinds x ~80 faults, pairs in thorough) concretised on base documents; seeded: arbitrary bytes, JSON-alphabet bytes, 1-4 byte-level mutations (overwrite, delete, insert structural bytes, truncate, splice extreme numbers, duplicate chunks, long VLQ runs, swap) of every repository fixture map, random regular / Hermes / nested index documents (mutated or not), random multi-fault documents; each run through detect, decode, ~all read-only queries, serialise + redecode, 16 rewrite option combinations, flatten; distinct = distinct (input digest, step); non-trivial = any step other than detection; well-formed documents of the map family (long lines with range flags, > 64 sources, every VLQ digit class) through the same life cycle; a sourceless token in the fault documents' base map; seek sessions on one TokenIter (any order, repeated, with next / nth / size_hint between); unparsable function maps",
+    rule="cases: every (kind, fault set) of MC_Lifecycle (3 kinds x ~80 faults, pairs in thorough) concretised on base documents; seeded: arbitrary bytes, JSON-alphabet bytes, 1-4 byte-level mutations (overwrite, delete, insert structural bytes, truncate, splice extreme numbers, duplicate chunks, long VLQ runs, swap) of every repository fixture map, random regular / Hermes / nested index documents (mutated or not), random multi-fault documents; each run through detect, decode, ~all read-only queries, serialise + redecode, 16 rewrite option combinations, flatten; distinct = distinct (input digest, step); non-trivial = any step other than detection; well-formed documents of the map family (long lines with range flags, > 64 sources, every VLQ digit class) through the same life cycle; a sourceless token in the fault documents' base map; seek sessions on one TokenIter (any order, repeated, with next / nth / size_hint between); unparsable function maps; long junk lines ending next to a multiple of 8192",
     assumptions=COMMON_ASSUMPTIONS + ["fixtures are read from /repo/tests/fixtures at run time"],
 )
 
